@@ -111,6 +111,8 @@ def main() -> int:
         if 'failed and was skipped' in line:
             print(f'NORMALISER-WARNING {line}')
     mod.run(ctx)
+    from kfv.rules import generic_rules
+    ctx.do(generic_rules.rule_iter_once)
     known = {k['key'] for k in core.load_known() if k.get('status') == 'known' and a.prop in k.get('properties', [])}
     if not [v for v in ctx.violations if v['key'] not in known]:
         # a definite violation is reported even when another rule lost its anchors;
